@@ -677,32 +677,71 @@ func ruleForwardCleared(r *Run, rule string) {
 						obj = info.Uses[id]
 					}
 					n++
-					// a call obj.Forward(<zero Forward>) later in the function, before any other method call on obj
+					// a statement obj.Forward(<zero Forward>) in the SAME statement list as the fetch
+					// (hence executed on every path that uses the instruction), before any other use of obj
+					// than reading its InstructionType
 					cleared := false
-					var firstUse token.Pos
-					ast.Inspect(fd.Body, func(k ast.Node) bool {
-						c, ok := k.(*ast.CallExpr)
-						if !ok || c.Pos() < as.End() {
-							return true
+					isClear := func(st ast.Stmt) bool {
+						es, ok := st.(*ast.ExprStmt)
+						if !ok {
+							return false
+						}
+						c, ok := es.X.(*ast.CallExpr)
+						if !ok || len(c.Args) != 1 {
+							return false
 						}
 						s2, ok := c.Fun.(*ast.SelectorExpr)
-						if !ok {
-							return true
+						if !ok || s2.Sel.Name != "Forward" {
+							return false
 						}
 						rid, ok := ast.Unparen(s2.X).(*ast.Ident)
 						if !ok || info.Uses[rid] != obj {
-							return true
+							return false
 						}
-						if s2.Sel.Name == "Forward" && len(c.Args) == 1 {
-							if cl, ok := ast.Unparen(c.Args[0]).(*ast.CompositeLit); ok && len(cl.Elts) == 0 {
-								if firstUse == 0 || c.Pos() < firstUse {
-									cleared = true
+						cl, ok := ast.Unparen(c.Args[0]).(*ast.CompositeLit)
+						return ok && len(cl.Elts) == 0
+					}
+					usesObj := func(st ast.Stmt) bool {
+						used := false
+						ast.Inspect(st, func(k ast.Node) bool {
+							if c, ok := k.(*ast.CallExpr); ok {
+								if s2, ok := c.Fun.(*ast.SelectorExpr); ok && s2.Sel.Name == "InstructionType" {
+									if rid, ok := ast.Unparen(s2.X).(*ast.Ident); ok && info.Uses[rid] == obj {
+										return false
+									}
 								}
-								return true
+							}
+							if rid, ok := k.(*ast.Ident); ok && info.Uses[rid] == obj {
+								used = true
+							}
+							return true
+						})
+						return used
+					}
+					scan := func(list []ast.Stmt) {
+						for i, st := range list {
+							if st != ast.Stmt(as) {
+								continue
+							}
+							for _, later := range list[i+1:] {
+								if isClear(later) {
+									cleared = true
+									return
+								}
+								if usesObj(later) {
+									return
+								}
 							}
 						}
-						if s2.Sel.Name != "InstructionType" && firstUse == 0 && !cleared {
-							firstUse = c.Pos()
+					}
+					ast.Inspect(fd.Body, func(k ast.Node) bool {
+						switch x := k.(type) {
+						case *ast.BlockStmt:
+							scan(x.List)
+						case *ast.CaseClause:
+							scan(x.Body)
+						case *ast.CommClause:
+							scan(x.Body)
 						}
 						return true
 					})
